@@ -1,1 +1,291 @@
-(** Props/C19.v — placeholder, to be written. *)
+(** Props/C19.v — pipeline and custom-module resolution order.
+    Statements only; every proof is [exact] of a lemma of Proofs/LoaderProofs.v.
+    [e] ranges over ALL environments: any working directory, any built-in directory and,
+    above all, ANY pair of predicates [e_is_file] / [e_exists] — i.e. every subset of the
+    candidate locations, every other content of the disk.  Nothing is bounded. *)
+From PV Require Import Loader LoaderProofs.
+Open Scope string_scope.
+
+(** ** Look-up order *)
+
+(** A relative name resolves to the FIRST existing [<name>.yaml] in the documented order
+    (parent directory if one is given, cwd, cwd/pipelines, built-in): some location [d] of
+    that list holds the file and no location before it does.  When the look-up fails it is
+    a PipelineNotFoundError and no documented location holds the file.
+    [parent_wf] is the file-system sanity fact "a file below the parent directory implies
+    that the directory exists". *)
+Theorem C19_first_existing : forall e name parent,
+  let fname := name ++ ".yaml" in
+  is_abs fname = false -> parent_wf e parent fname ->
+  match get_pipeline_path e name parent with
+  | Ok p => exists pre d post,
+        documented_order e parent = (pre ++ d :: post)%list /\
+        p = norm_abs (joinpath d fname) /\
+        e_is_file e (joinpath d fname) = true /\
+        Forall (fun d' => e_is_file e (joinpath d' fname) = false) pre
+  | Err n m => n = PNF /\ m = not_found_msg fname (search_locations e parent) /\
+               Forall (fun d => e_is_file e (joinpath d fname) = false) (documented_order e parent)
+  | Unsup => False
+  end.
+Proof. exact first_existing. Qed.
+Print Assumptions C19_first_existing.
+
+(** ... and conversely an existing candidate is never missed. *)
+Theorem C19_existing_is_found : forall e name parent,
+  let fname := name ++ ".yaml" in
+  is_abs fname = false -> parent_wf e parent fname ->
+  Exists (fun d => e_is_file e (joinpath d fname) = true) (documented_order e parent) ->
+  exists p, get_pipeline_path e name parent = Ok p.
+Proof. exact existing_is_found. Qed.
+Print Assumptions C19_existing_is_found.
+
+(** The list the code actually builds (parent skipped when it does not exist or is the
+    same directory as cwd) gives the same answer as the documented list. *)
+Theorem C19_code_order_equals_documented : forall e parent fname,
+  parent_wf e parent fname ->
+  find_first (e_is_file e) fname (search_locations e parent)
+  = find_first (e_is_file e) fname (documented_order e parent).
+Proof. exact search_eq_documented. Qed.
+Print Assumptions C19_code_order_equals_documented.
+
+(** An absolute name is looked up only at itself: the result depends on nothing but
+    whether that one path is a file — not on the parent, not on any other file. *)
+Theorem C19_absolute_only : forall e name parent,
+  is_abs (name ++ ".yaml") = true ->
+  get_pipeline_path e name parent =
+  if e_is_file e (name ++ ".yaml") then Ok (norm_abs (name ++ ".yaml"))
+  else Err PNF (abs_missing_msg (name ++ ".yaml")).
+Proof. exact absolute_only. Qed.
+Print Assumptions C19_absolute_only.
+
+Theorem C19_absolute_nowhere_else : forall e e' name parent parent',
+  is_abs (name ++ ".yaml") = true ->
+  e_is_file e (name ++ ".yaml") = e_is_file e' (name ++ ".yaml") ->
+  get_pipeline_path e name parent = get_pipeline_path e' name parent'.
+Proof. exact absolute_nowhere_else. Qed.
+Print Assumptions C19_absolute_nowhere_else.
+
+(** ** The not-found error *)
+
+(** none of the searched locations holds the file -> PipelineNotFoundError with the message
+    built from the complete list of searched locations ... *)
+Theorem C19_not_found_lists_all : forall e name parent,
+  let fname := name ++ ".yaml" in
+  is_abs fname = false ->
+  Forall (fun d => e_is_file e (joinpath d fname) = false) (search_locations e parent) ->
+  get_pipeline_path e name parent = Err PNF (not_found_msg fname (search_locations e parent)).
+Proof. exact not_found_lists_all. Qed.
+Print Assumptions C19_not_found_lists_all.
+
+(** ... whose lines are: a header naming the file, then every searched location, one per
+    line, in search order (names / directories containing a newline excluded). *)
+Theorem C19_not_found_message_lines : forall fname dirs,
+  dirs <> [] -> sep_free NL fname -> Forall (sep_free NL) dirs ->
+  lines (not_found_msg fname dirs) = (fname ++ " not found in any of the following:") :: dirs.
+Proof. exact not_found_msg_lines. Qed.
+Print Assumptions C19_not_found_message_lines.
+
+(** ** pype children *)
+
+(** A pipeline loaded by the file loader — under ANY name, with ANY parent argument, hence
+    at any depth of a pype chain — records its own directory as [parent], cascades parent
+    and loader, and its directory has been handed to [add_sys_path]. *)
+Theorem C19_file_loaded_records_own_dir : forall e st name parent st' d,
+  load_pipeline e st FILE_LOADER LFile name parent = Ok (st', d) ->
+  d_info d = file_info (d_file d) /\ d_is_file_info d = true /\
+  st' = add_sys_path e st (PPath (dirname (d_file d))).
+Proof. exact load_file_info. Qed.
+Print Assumptions C19_file_loaded_records_own_dir.
+
+(** Its child, invoked by pype with none of loader / resolveFromParent / parent set, is
+    loaded by the same loader and searched for in the parent pipeline's directory FIRST,
+    then cwd, cwd/pipelines, built-in. *)
+Theorem C19_child_parent_first : forall e st name parent st' d,
+  load_pipeline e st FILE_LOADER LFile name parent = Ok (st', d) ->
+  child_loader (d_info d) default_opts = Some FILE_LOADER /\
+  child_parent (d_info d) default_opts = PPath (dirname (d_file d)) /\
+  documented_order e (child_parent (d_info d) default_opts)
+  = [dirname (d_file d); e_cwd e; cwd_pipelines e; e_builtin e].
+Proof. exact child_parent_first. Qed.
+Print Assumptions C19_child_parent_first.
+
+(** for every PipelineInfo that cascades (custom loaders included) the defaults cascade *)
+Theorem C19_child_default_cascades : forall info,
+  i_lcasc info = true -> i_pcasc info = true ->
+  child_loader info default_opts = Some (i_loader info) /\
+  child_parent info default_opts = i_parent info.
+Proof. exact child_default_cascades. Qed.
+Print Assumptions C19_child_default_cascades.
+
+(** the three opt-outs *)
+Theorem C19_optout_resolve_from_parent_false : forall info o,
+  o_resolve o = Some false -> o_parent o = Absent -> child_parent info o = PNone.
+Proof. exact optout_resolve_false. Qed.
+Print Assumptions C19_optout_resolve_from_parent_false.
+
+Theorem C19_optout_explicit_parent : forall info o s,
+  o_parent o = Given s -> child_parent info o = PStr s.
+Proof. exact optout_explicit_parent. Qed.
+Print Assumptions C19_optout_explicit_parent.
+
+Theorem C19_optout_other_loader : forall info o l,
+  o_loader o = Given l -> l <> i_loader info -> o_parent o = Absent ->
+  child_parent info o = PNone /\ child_loader info o = Some l.
+Proof. exact optout_other_loader. Qed.
+Print Assumptions C19_optout_other_loader.
+
+(** naming the parent's own loader explicitly is not an opt-out *)
+Theorem C19_same_loader_still_cascades : forall info o,
+  o_loader o = Given (i_loader info) -> o_resolve o = None -> o_parent o = Absent ->
+  i_pcasc info = true -> child_parent info o = i_parent info.
+Proof. exact same_loader_still_cascades. Qed.
+Print Assumptions C19_same_loader_still_cascades.
+
+(** and without a parent the search is cwd, cwd/pipelines, built-in — for the root
+    pipeline and after every opt-out *)
+Theorem C19_no_parent_order : forall e,
+  documented_order e PNone = [e_cwd e; cwd_pipelines e; e_builtin e]
+  /\ search_locations e PNone = [e_cwd e; cwd_pipelines e; e_builtin e].
+Proof. exact no_parent_order. Qed.
+Print Assumptions C19_no_parent_order.
+
+(** ** sys.path *)
+
+(** [add_sys_path]: sys.path only grows, at the end, by that one directory, and only when
+    it exists and is not there yet ... *)
+Theorem C19_add_sys_path_appends : forall e st p,
+  syspath (add_sys_path e st p) = syspath st \/
+  (syspath (add_sys_path e st p) = (syspath st ++ [p_str p])%list /\
+   str_in (p_str p) (syspath st) = false /\
+   e_exists e (resolve (e_cwd e) (p_str p)) = true).
+Proof. exact add_sys_path_appends. Qed.
+Print Assumptions C19_add_sys_path_appends.
+
+(** ... it is idempotent and never creates a duplicate. *)
+Theorem C19_add_sys_path_idempotent : forall e st p,
+  add_sys_path e (add_sys_path e st p) p = add_sys_path e st p.
+Proof. exact add_sys_path_idempotent. Qed.
+Print Assumptions C19_add_sys_path_idempotent.
+
+Theorem C19_add_sys_path_nodup : forall e st p,
+  NoDup (syspath st) -> NoDup (syspath (add_sys_path e st p)).
+Proof. exact add_sys_path_nodup. Qed.
+Print Assumptions C19_add_sys_path_nodup.
+
+(** After a load by the file loader the pipeline's directory IS on sys.path ([sys_inv]:
+    the known-dirs bookkeeping is consistent, which holds initially and is preserved) ... *)
+Theorem C19_dir_on_sys_path : forall e st name parent st' d,
+  load_pipeline e st FILE_LOADER LFile name parent = Ok (st', d) ->
+  sys_inv e st -> e_exists e (dirname (d_file d)) = true ->
+  In (dirname (d_file d)) (syspath st') /\ sys_inv e st'.
+Proof. exact load_file_dir_on_sys_path. Qed.
+Print Assumptions C19_dir_on_sys_path.
+
+(** ... so a module file next to it is found by the import. *)
+Theorem C19_sibling_module_importable : forall e sp dir m,
+  In dir sp -> is_abs dir = true -> e_is_file e (joinpath dir (m ++ ".py")) = true ->
+  exists mp, find_module e sp m = Some mp.
+Proof. exact sibling_module_importable. Qed.
+Print Assumptions C19_sibling_module_importable.
+
+(** The bookkeeping invariant (and genuineness of the pipeline cache) holds in every state
+    of every run: any world, any chain of pype calls, any depth (any fuel). *)
+Theorem C19_run_invariant : forall fuel w st l pd n p,
+  st_inv (w_env w) st -> st_inv (w_env w) (fst (fst (run_pipeline fuel w st l pd n p))).
+Proof. exact run_pipeline_inv. Qed.
+Print Assumptions C19_run_invariant.
+
+(** ** The pipeline cache between pype and the look-up
+
+    FULL STATEMENT (false of the faithful model — DESIGN F4):
+      forall e st l k name parent st' d,
+        cache_genuine e (s_cache st) ->
+        get_pipeline e st l k name parent = Ok (st', d) ->
+        get_pipeline_path e name parent = Ok (d_file d).
+    [Loader.get_pipeline] keys its cache by [f'{parent}+{name}']: two different requests can
+    share a key, and the second is then served the first one's pipeline. *)
+Theorem C19_cached_lookup_refuted :
+  exists e st l k name parent st' d,
+    cache_genuine e (s_cache st) /\
+    get_pipeline e st l k name parent = Ok (st', d) /\
+    get_pipeline_path e name parent = Ok "/x+a/b.yaml" /\
+    d_file d = "/x/a+b.yaml".
+Proof. exact cached_lookup_refuted. Qed.
+Print Assumptions C19_cached_lookup_refuted.
+
+(** proved version: when no other request shares the key *)
+Theorem C19_cached_lookup_partial : forall e st l k name parent st' d,
+  cache_genuine e (s_cache st) -> collision_free e (s_cache st) name parent ->
+  get_pipeline e st l k name parent = Ok (st', d) ->
+  get_pipeline_path e name parent = Ok (d_file d).
+Proof. exact cached_lookup_partial. Qed.
+Print Assumptions C19_cached_lookup_partial.
+
+(** * Non-vacuity: concrete layouts, evaluated *)
+
+Definition leafp (id : string) : pipe := mkpipe id false None [].
+
+(** files in the caller's directory, cwd/pipelines and the built-in directory *)
+Definition w1 : world :=
+  mk_world "/w/cwd" "pipelines" "/w/blt"
+    [("/w/par/c1.yaml", mkpipe "c1" false (Some "m1") [mkcall "leaf" default_opts]);
+     ("/w/par/leaf.yaml", leafp "par");
+     ("/w/cwd/pipelines/leaf.yaml", leafp "sub");
+     ("/w/blt/leaf.yaml", leafp "blt")]
+    ["/w/par/m1.py"]
+    ["/"; "/w"; "/w/cwd"; "/w/cwd/pipelines"; "/w/par"; "/w/blt"].
+
+Example C19_first_existing_nonvacuous :
+  (* hypotheses of C19_first_existing hold ... *)
+  is_abs ("leaf" ++ ".yaml") = false /\
+  parent_wf (w_env w1) (PPath "/w/par") "leaf.yaml" /\
+  (* ... and the look-up picks the parent directory first, cwd/pipelines without a parent *)
+  get_pipeline_path (w_env w1) "leaf" (PPath "/w/par") = Ok "/w/par/leaf.yaml" /\
+  get_pipeline_path (w_env w1) "leaf" PNone = Ok "/w/cwd/pipelines/leaf.yaml" /\
+  get_pipeline_path (w_env w1) "nope" (PPath "/w/par") =
+    Err PNF ("nope.yaml not found in any of the following:" ++ nl ++ "/w/par" ++ nl ++ "/w/cwd"
+             ++ nl ++ "/w/cwd/pipelines" ++ nl ++ "/w/blt") /\
+  get_pipeline_path (w_env w1) "/w/abs/leaf" (PPath "/w/par") =
+    Err PNF "/w/abs/leaf.yaml does not exist." /\
+  search_locations (w_env w1) (PPath "/w/cwd") = ["/w/cwd"; "/w/cwd/pipelines"; "/w/blt"] /\
+  search_locations (w_env w1) (PStr "../gone") = ["/w/cwd"; "/w/cwd/pipelines"; "/w/blt"].
+Proof. vm_compute. repeat split; discriminate || reflexivity || auto. Qed.
+
+(** a whole run: root by absolute name, child found next to its caller, the caller's
+    custom step module imported from the directory appended to sys.path *)
+Example C19_chain_nonvacuous :
+  run_case w1 "/R" None None "/w/par/c1" =
+  Ok [["f"; "c1"; "c1.yaml"; FILE_LOADER; "P"; "/w/par"; "true"; "true"; "/w/par/c1.yaml"];
+      ["m"; "/w/par/m1.py"];
+      ["f"; "par"; "leaf.yaml"; FILE_LOADER; "P"; "/w/par"; "true"; "true"; "/w/par/leaf.yaml"];
+      ["ok"]; ["syspath"; "/w/par"];
+      ["env"; "/w/cwd"; "/w/cwd/pipelines"; "/R"; FILE_LOADER]].
+Proof. vm_compute. reflexivity. Qed.
+
+Example C19_dir_on_sys_path_nonvacuous :
+  exists st' d,
+    load_pipeline (w_env w1) sys0 FILE_LOADER LFile "leaf" (PPath "/w/par") = Ok (st', d) /\
+    sys_inv (w_env w1) sys0 /\ e_exists (w_env w1) (dirname (d_file d)) = true /\
+    syspath st' = ["/w/par"].
+Proof.
+  eexists. eexists. split; [vm_compute; reflexivity|].
+  split; [apply sys_inv_init|]. split; vm_compute; reflexivity.
+Qed.
+
+(** the cache-key collision, end to end: [/x/c0] runs [a+b] (found next to it), then
+    [/x+a/c1], whose child [b] should be [/x+a/b.yaml] — and is served [/x/a+b.yaml] *)
+Definition w2 : world :=
+  mk_world "/cwd" "pipelines" "/blt"
+    [("/x/c0.yaml", mkpipe "c0" false None [mkcall "a+b" default_opts; mkcall "/x+a/c1" default_opts]);
+     ("/x/a+b.yaml", leafp "x/a+b");
+     ("/x+a/c1.yaml", mkpipe "c1" false None [mkcall "b" default_opts]);
+     ("/x+a/b.yaml", leafp "x+a/b")]
+    [] ["/"; "/x"; "/x+a"; "/cwd"].
+
+Definition ids_run (r : state * list event * status) : list string :=
+  let '(_, ev, _) := r in map (fun e => nth 1 e "") ev.
+
+Example C19_collision_end_to_end :
+  get_pipeline_path (w_env w2) "b" (PPath "/x+a") = Ok "/x+a/b.yaml" /\
+  ids_run (run_pipeline FUEL w2 state0 None None "/x/c0" PNone) = ["c0"; "x/a+b"; "c1"; "x/a+b"].
+Proof. vm_compute. split; reflexivity. Qed.
